@@ -187,6 +187,8 @@ pub struct ObjKey {
     pub d13: bool,
     /// D15 classifier: no explicit length and a natural length beyond the decoder's limit
     pub d15: bool,
+    /// D20 classifier: a sample file name that ends in whitespace
+    pub d20: bool,
 }
 
 #[derive(Clone, Debug, PartialEq)]
@@ -304,8 +306,16 @@ pub fn map_key(m: &mut Beatmap, probes: &[f64]) -> MapKey {
     }
 }
 
+fn file_name_ends_in_whitespace(v: &[HitSampleInfo]) -> bool {
+    v.iter().any(|s| match &s.name {
+        rosu_map::section::hit_objects::hit_samples::HitSampleInfoName::File(f) => f.trim_end() != f.as_str(),
+        _ => false,
+    })
+}
+
 pub fn object_key(h: &mut HitObject, bufs: &mut CurveBuffers) -> ObjKey {
     let samples = sample_nb(&h.samples);
+    let d20_own = file_name_ends_in_whitespace(&h.samples);
     match &mut h.kind {
         HitObjectKind::Circle(c) => ObjKey {
             head: format!(
@@ -318,6 +328,7 @@ pub fn object_key(h: &mut HitObject, bufs: &mut CurveBuffers) -> ObjKey {
             excluded_catmull: false,
             d13: false,
             d15: false,
+            d20: d20_own,
         },
         HitObjectKind::Slider(s) => {
             let excluded = has_consecutive_catmull(s.path.control_points());
@@ -352,6 +363,7 @@ pub fn object_key(h: &mut HitObject, bufs: &mut CurveBuffers) -> ObjKey {
                 excluded_catmull: excluded,
                 d13,
                 d15,
+                d20: d20_own || s.node_samples.iter().any(|v| file_name_ends_in_whitespace(v)),
             }
         }
         HitObjectKind::Spinner(s) => ObjKey {
@@ -365,6 +377,7 @@ pub fn object_key(h: &mut HitObject, bufs: &mut CurveBuffers) -> ObjKey {
             excluded_catmull: false,
             d13: false,
             d15: false,
+            d20: d20_own,
         },
         HitObjectKind::Hold(hd) => ObjKey {
             head: format!("{:?} hold x {:?} dur {:?}", h.start_time, hd.pos_x, hd.duration),
@@ -374,6 +387,7 @@ pub fn object_key(h: &mut HitObject, bufs: &mut CurveBuffers) -> ObjKey {
             excluded_catmull: false,
             d13: false,
             d15: false,
+            d20: d20_own,
         },
     }
 }
